@@ -914,6 +914,13 @@ def run(ck):
     orc = oracle(wit)
     record(ck, "sympy", wit, orc, ["witness"])
     check_exact(ck, wit, impl, orc, None)
+    # the witness of the bit-order finding: X on qubit 0 of 2, operator Z0, frequency route
+    x0 = {"name": "X", "target": [0], "control": None, "k": None, "var": False}
+    wit2 = dict(wit, n=2, segs=[[[x0], None]], op=[[[[0, "Z"]], Fraction(1), Fraction(0)]])
+    impl = run_impl(wit2, apis=("E", "V", "Ef"))
+    orc = oracle(wit2)
+    record(ck, "sympy", wit2, orc, ["witness"])
+    check_exact(ck, wit2, impl, orc, None)
 
     timing["sympy"] = round(time.time() - T0, 1)
     T0 = time.time()
